@@ -23,12 +23,12 @@ type (
 		Op   string
 		X, Y SExpr
 	}
-	STern struct{ C, A, B SExpr }
-	SQuant  struct {
-		Forall bool
-		Vars   [][2]string // name, type
-		Body   SExpr
-		Pats   []SExpr
+	STern  struct{ C, A, B SExpr }
+	SQuant struct {
+		Forall  bool
+		Vars    [][2]string // name, type
+		Body    SExpr
+		Pats    []SExpr
 		AltPats [][]SExpr
 	}
 	SIndex struct{ X, I SExpr }
